@@ -53,6 +53,7 @@ def _run(ch, spas, filt, window):
     """spas: tuple of (index, latency, mult)."""
     lib.reset_library()
     loop = VLoop(ch, window=window)
+    loop.batch_choices_enabled = window > 0
     net = VNet(loop)
     rs = []
     for idx, lat, mult in spas:
